@@ -41,6 +41,8 @@ def build(i1: int, n1: int, ev: int, b: bool, f: int, nn: bool, u2: int) -> Prog
     p.stmt("implicit none")
     p.var("mv1")
     gen.add_type(p, 1, ev, b)
+    if b:
+        gen.add_type(p, 3, ev, False, parent="t1")
     gen.add_interface(p, 2, ev, f)
     p.stmt("contains", kind="contains")
     body1 = [(E[i1], E[n1] if n1 >= 0 else -1)]
@@ -62,6 +64,7 @@ def build(i1: int, n1: int, ev: int, b: bool, f: int, nn: bool, u2: int) -> Prog
         gen.add_proc(p, 8, ev, True, body1, False)
     elif u2 == 4:
         p._open("submodule", "sm1", "submodule (m1) sm1")
+        p.links.append(("submodule", "sm1", "m1"))
         p.var("smv")
         p.stmt("contains", kind="contains")
         gen.add_proc(p, 9, ev, False, body1, False)
@@ -165,7 +168,7 @@ def ws_symbols(i1: int, q: int, qcase: int) -> bool:
         p2.end(0)
         l2, _ = gen.layout(p2, Layout())
         srv = ws.reset(SRV, {PATH: "\n".join(lines) + "\n", ws.ROOT + "/m2.f90": "\n".join(l2) + "\n"})
-        members = [("m1", None), ("mv1", "m1"), ("t1", "m1")] + ([("g2", "m1")] if q % 2 else []) + [("s1", "m1"), ("s2", "m1"), ("s7", None), ("m2", None), ("Mv1x", "m2"), ("zeta", "m2"), ("mv1", "m2")]
+        members = [("m1", None), ("mv1", "m1"), ("t1", "m1"), ("t3", "m1")] + ([("g2", "m1")] if q % 2 else []) + [("s1", "m1"), ("s2", "m1"), ("s7", None), ("m2", None), ("Mv1x", "m2"), ("zeta", "m2"), ("mv1", "m2")]
         names = sorted({n[0].lower()[i:i + k] for n in members for k in (1, 2, 3) for i in range(len(n[0]) - k + 1)})
         queries = names + ["qq", "m1x", "#", "s9"]
         if q >= len(queries):
